@@ -172,10 +172,18 @@ def _behind(du, operand):
     return l
 
 
+def _push_component_body(F):
+    """push_component with its private helpers inlined (a block extracted into `fn push_result(..)` is seen in place);
+    file_exists and search_dir stay calls: the rules reason about them as such."""
+    from facts import same_module_private
+    acc = same_module_private(F, PUSH_COMPONENT)
+    return F.inlined(F.body(PUSH_COMPONENT), accept=lambda n: acc(n) and n not in (FILE_EXISTS, SEARCH_DIR, PUSH_COMPONENT, TO_PATTERN))
+
+
 @RS.rule('C05.R2', 'K-GUARD', 'push_component delivers only complete, existing paths: results.push needs file_exists || self.file_exists() (an fstatat)')
 def r2(cx):
     F = cx.F
-    body = F.body(PUSH_COMPONENT)
+    body = _push_component_body(F)
     cx.fn(body.fn)
     du = Q.DefUse(body)
     pushes = [(b, t) for b, t in Q.find_calls(body, ['alloc::vec::Vec::<T, A>::push'])
@@ -405,6 +413,15 @@ def _check_comparator(cx, F, cdef):
                      'different key delivers the matches in the wrong order', loc=cb.loc(cb.d))
 
 
+def _private_helper_called_only_from(F, fn, allowed):
+    """fn is a non-public method of SearchEnv (an extracted block) and every caller of it is in `allowed`."""
+    sig = F.fns.get(fn)
+    if sig is None or sig.get('vis') == 'pub' or '::SearchEnv::' not in fn:
+        return False
+    callers = F.callers_of(lambda names, t: fn in names)
+    return bool(callers) and all(b.root in allowed for b, blk, t in callers)
+
+
 @RS.rule('C05.R4', 'K-GUARD', 'noglob: no directory is scanned unless the Glob option is on; search_dir has no other entry')
 def r4(cx):
     F = cx.F
@@ -460,7 +477,7 @@ def r4(cx):
                           (TO_PATTERN, {SEARCH_DIR})):
         for b2, blk, t2 in F.callers_of(lambda names, t: prim in names):
             cx.site('%s is called by %s at %s' % (prim.split('::')[-1], b2.root, b2.loc(t2)))
-            if b2.root not in allowed:
+            if b2.root not in allowed and not _private_helper_called_only_from(F, b2.root, allowed):
                 cx.violation(b2.root, 'caller:%s' % prim.split('::')[-1], '%s is entered from %s, bypassing the Glob option test / the '
                              'existence discipline' % (prim.split('::')[-1], b2.root), loc=b2.loc(t2))
     ods = F.callers_of(lambda names, t: any(n.endswith('::Open::opendir') for n in names), crates=None)
@@ -677,7 +694,7 @@ def r1b(cx):
 def r2b(cx):
     import mirq as Q
     F = cx.F
-    body = F.body(PUSH_COMPONENT)
+    body = _push_component_body(F)
     cx.fn(body.fn)
     du = Q.DefUse(body)
     rec = Q.find_calls(body, [SEARCH_DIR])
